@@ -51,6 +51,7 @@ class Acc:
     def fail(self, status, what, detail):
         self.fails.append({"status": status, "what": what, "detail": detail, "nontrivial": True, "kind": self.kind})
     def results(self):
+        self.fails.sort(key=lambda f: 0 if f["status"] == "prop_fail" else 1)
         out = self.fails[:3]
         out.append({"status": "ok", "evals": self.evals, "keys": sorted(self.keys)[:3000], "kind": self.kind,
                     "stats": dict(self.stats), "nontrivial": False})
@@ -59,8 +60,8 @@ class Acc:
 def bad(acc, r, what_ctx, det):
     """common handling of a drive() result that is not a plain verdict; True if the case must stop"""
     v = r["verdict"]
-    if v == "corr":
-        acc.fail("corr_fail", "%s: model/code disagree: %s" % (what_ctx, r["what"]), det); return True
+    if r.get("corr") and not any(f["status"] == "corr_fail" for f in acc.fails):
+        acc.fail("corr_fail", "%s: model/code disagree: %s" % (what_ctx, r["corr"]), det)
     if v in ("prop", "noprogress"):
         acc.fail("prop_fail", "%s: %s" % (what_ctx, r["what"]), det); return True
     if v in ("blockdec", "toolong"):
@@ -97,7 +98,7 @@ def history_item(st, acc, rng, sess, kind):
         if bad(acc, r, "history truncated", {"frame": fr.hex()[:800], "cut": cut}): return False
         if r["verdict"] == "complete":
             acc.fail("prop_fail", "a proper prefix of a frame is reported complete", {"frame": fr.hex()[:800], "cut": cut}); return False
-        acc.stats["aborted_at_" + sess.md.state().split()[0]] += 1
+        if not sess.model_dead: acc.stats["aborted_at_" + sess.md.state().split()[0]] += 1
         sess.cd.reset(); sess.md.reset()
     elif kind == "corrupt_reset":
         fr, content, meta = F.gen_frame(rng, b"", nblocks=rng.choice([1, 2, 3]), bcrc=True, ccrc=True)
@@ -114,10 +115,13 @@ def history_item(st, acc, rng, sess, kind):
         sess.cd.reset(); sess.md.reset()
     elif kind == "info_then_frame":
         fr, content, meta = F.gen_frame(rng, b"")
-        ci = sess.cd.frame_info(fr); mi = sess.md.frame_info(fr)
+        ci = sess.cd.frame_info(fr)
         acc.evals += 1
-        if ci != mi[:3]:
-            acc.fail("corr_fail", "getFrameInfo in history: code %s model %s" % (ci, mi[:3]), {"frame": fr.hex()[:800]}); return False
+        if not sess.model_dead:
+            mi = sess.md.frame_info(fr)
+            if ci != mi[:3]:
+                acc.fail("corr_fail", "getFrameInfo in history: code %s model %s" % (ci, mi[:3]), {"frame": fr.hex()[:800]})
+                sess.model_dead = True; sess.corr = "getFrameInfo"
         if ci[1] < 0 or ci[0] != meta["hlen"]:
             acc.fail("prop_fail", "getFrameInfo on a valid frame: consumed %d (header %d) ret %d" % (ci[0], meta["hlen"], ci[1]), {"frame": fr.hex()[:800]}); return False
         ch, cap = pol()
@@ -214,13 +218,12 @@ def k_info(st, acc, rng, case):
     sess = F.Session(st)
     cd, md = sess.cd, sess.md
     def both_info(src):
-        ci = cd.frame_info(src); mi = md.frame_info(src); acc.evals += 1
-        if ci != mi[:3]:
-            acc.fail("corr_fail", "getFrameInfo: code %s model %s (model stage %s)" % (ci, mi[:3], mi[4]), {"src": src.hex()[:400]})
-            return None
-        if lib.peek:
-            cs = lib.dstate(cd.ctx).split(",")[0]
-            ms = md.orc.ask("state", md.id)
+        ci = cd.frame_info(src); acc.evals += 1
+        if not sess.model_dead:
+            mi = md.frame_info(src)
+            if ci != mi[:3]:
+                acc.fail("corr_fail", "getFrameInfo: code %s model %s (model stage %s)" % (ci, mi[:3], mi[4]), {"src": src.hex()[:400]})
+                sess.model_dead = True; sess.corr = "getFrameInfo"
         return ci
     try:
         d = None
@@ -257,7 +260,7 @@ def k_info(st, acc, rng, case):
             n = rng.randrange(1, hl)
             k, info = sess.call(fr[:n], 10)
             if k != "ok":
-                acc.fail("corr_fail" if k == "corr" else "prop_fail", str(info), {"frame": fr.hex()[:600]}); return
+                acc.fail("prop_fail", str(info), {"frame": fr.hex()[:600]}); return
             ci = both_info(fr[n:])
             if ci is None: return
             if ci[1] != -19 or ci[0] != 0:
